@@ -8,6 +8,7 @@ CONSTANTS
   BugDtorOneSided = FALSE
   BugMoveNoReset = FALSE
   BugListMoveCtor = FALSE
+  WithIter = FALSE
 VIEW RView
 INVARIANTS WalkAgree
 CHECK_DEADLOCK FALSE
